@@ -392,7 +392,8 @@ Proof.
   split; [lia|]. split; [reflexivity|]. split; [reflexivity|].
   split; [split; [left; reflexivity | reflexivity]|].
   apply no_out_edge. intros k He.
-  inversion He as [e1 e2 Hlt H1 H2 Ht | t1 t2 l m1 m2 Hlt H1 H2 Hc | t1 t2 x k0 a Hlt H1 H2];
+  inversion He as [e1 e2 Hlt H1 H2 Ht | t1 t2 l m1 m2 Hlt H1 H2 Hc | t1 t2 x k0 a Hlt H1 H2
+                   | t1 t2 x Hlt H1 H2 Hb];
     cbn in H1; inversion H1; subst.
   destruct k as [|[|[|k]]]; cbn in H2; try lia; try discriminate.
   - inversion H2; subst. cbn in Ht. discriminate.
